@@ -543,7 +543,13 @@ def make_cleaner(cf, conc, tmp):
     if cf.get("nofqdn"):
         # built as insights/collect.py builds it: no explicit fqdn; the inventory label (display_name) may be configured
         if cf.get("dname"):
-            conf.display_name = "inventory-label-%s.labels.test" % word(conc.rng, LOW, 3, 6)
+            # the label is free text of the user's: a name of a foreign domain, a bare label, a label inside the
+            # system's own domain; the second inventory label (ansible_host) may be set next to it
+            lab = "inventory-label-%s" % word(conc.rng, LOW, 3, 6)
+            conf.display_name = pick(conc.rng, [lab + ".labels.test", lab + ".labels.test", lab,
+                                                lab + "." + (conc.domain if cf["sysdom"] else "labels.test")])
+            if conc.rng.random() < 0.3:
+                conf.ansible_host = "ansible-%s.labels.test" % word(conc.rng, LOW, 3, 6)
         with declared_os_name(conc):
             return Cleaner(conf, rm)
     return Cleaner(conf, rm, conc.fqdn)
